@@ -3,30 +3,85 @@ import Sftp.Generated.AllocHandles
 /-
   C11 instantiated with the handle-table facts regenerated from server.go, request-server.go and
   request.go: the statements about the code as it is now, for both servers.
+
+  `G.handlesCfgRS` / `G.handlesCfgOS` carry the six generated fields; the three fields that have no
+  generated source yet (`sweepEmptiesTable`, `notifyKinds`, `useKindChecked`) are completed by
+  `cfgOfRS` / `cfgOfOS` from the hand-written constants `Sftp.Handles.Hand.*` (Model/Handles.lean).
 -/
 namespace Sftp.C11
 open Sftp Sftp.Handles
 
-theorem current_good_rs : Good G.handlesCfgRS := by decide
-theorem current_good_os : Good G.handlesCfgOS := by decide
+/-- The request server as it is now. -/
+def cfgRS : Cfg := cfgOfRS G.handlesCfgRS
+/-- The os-backed server as it is now. -/
+def cfgOS : Cfg := cfgOfOS G.handlesCfgOS
+
+theorem current_good_rs : Good cfgRS := by decide
+theorem current_good_os : Good cfgOS := by decide
+
+/-- The generated part alone (what `cur.cfg c11rs` / `c11os` print) meets `Good` as well. -/
+theorem current_good_rs_generated : Good G.handlesCfgRS := by decide
+theorem current_good_os_generated : Good G.handlesCfgOS := by decide
 
 /-- Request.close cancels the context created by requestFromPacket. -/
 theorem close_cancels_context : G.requestCloseCancelsContext = true := by decide
 
-theorem closed_exactly_once_rs (acts : List Action) (s : State) (h : run G.handlesCfgRS State.init acts = some s)
+/-- Request.transferError tells exactly readers, writers and reader-writers, and the sweep calls it. -/
+theorem current_notifies_transfer_rs : NotifiesTransfer cfgRS ∧ cfgRS.sweepNotifiesTransferError = true := by
+  decide
+
+/-- The request server checks a request against the kind of its handle; the os-backed server's sweep
+leaves the map as it is. -/
+theorem current_kind_checked_rs : cfgRS.useKindChecked = true := by decide
+theorem current_sweep_keeps_table_os : cfgOS.sweepEmptiesTable = false ∧ cfgOS.sweepClosesAll = true := by decide
+
+theorem closed_exactly_once_rs (acts : List Action) (s : State) (h : run cfgRS State.init acts = some s)
     (id : Nat) (hid : id < s.nobj) (he : s.ended = true) (hr : (s.objs id).real = true) : (s.objs id).closed = 1 :=
-  (closed_exactly_once G.handlesCfgRS current_good_rs acts s h id hid).2.2.2 he hr
+  (closed_exactly_once cfgRS current_good_rs acts s h id hid).2.2.2 he hr
 
-theorem closed_exactly_once_os (acts : List Action) (s : State) (h : run G.handlesCfgOS State.init acts = some s)
+theorem closed_exactly_once_os (acts : List Action) (s : State) (h : run cfgOS State.init acts = some s)
     (id : Nat) (hid : id < s.nobj) (he : s.ended = true) (hr : (s.objs id).real = true) : (s.objs id).closed = 1 :=
-  (closed_exactly_once G.handlesCfgOS current_good_os acts s h id hid).2.2.2 he hr
+  (closed_exactly_once cfgOS current_good_os acts s h id hid).2.2.2 he hr
 
-theorem handle_strings_fresh_rs (acts : List Action) (s : State) (h : run G.handlesCfgRS State.init acts = some s) :
+theorem handle_strings_fresh_rs (acts : List Action) (s : State) (h : run cfgRS State.init acts = some s) :
     (s.issued.map Nat.repr).Pairwise (· ≠ ·) :=
-  handle_strings_fresh G.handlesCfgRS current_good_rs acts s h
+  handle_strings_fresh cfgRS current_good_rs acts s h
 
-theorem handle_strings_fresh_os (acts : List Action) (s : State) (h : run G.handlesCfgOS State.init acts = some s) :
+theorem handle_strings_fresh_os (acts : List Action) (s : State) (h : run cfgOS State.init acts = some s) :
     (s.issued.map Nat.repr).Pairwise (· ≠ ·) :=
-  handle_strings_fresh G.handlesCfgOS current_good_os acts s h
+  handle_strings_fresh cfgOS current_good_os acts s h
+
+/-- Request server, a session ending with an error: exactly the never-closed readers / writers /
+reader-writers are told, once. -/
+theorem transfer_error_rs (acts : List Action) (s s' : State) (h : run cfgRS State.init acts = some s)
+    (hs : step cfgRS s (.sweep true) = some s') (id : Nat) (hid : id < s.nobj) :
+    (s.objs id).terr = 0 ∧
+    (s'.objs id).terr = (if (s.objs id).kind.isTransfer = true ∧ (s.objs id).closed = 0 then 1 else 0) := by
+  have := transfer_error_exactly_to_live_transfer_objects cfgRS current_good_rs current_notifies_transfer_rs.2
+    current_notifies_transfer_rs.1 acts s s' true h hs id hid
+  refine ⟨this.1, ?_⟩
+  rw [this.2.1]; simp
+
+/-- Request server: a READ / WRITE / READDIR that does not fit its live handle touches nothing. -/
+theorem wrong_kind_use_never_touches_rs (s s' : State) (hd id : Nat) (n : Need)
+    (hl : s.open.lookup hd = some id) (hw : fits n (s.objs id).kind = false)
+    (hs : step cfgRS s (.useAs hd n) = some s') : s' = { s with log := s.log ++ [.wrongKind] } :=
+  (wrong_kind_use_never_touches cfgRS current_kind_checked_rs s s' hd id n hl hw hs).1
+
+/-- os-backed server: although the sweep leaves the map as it is, once Serve has returned every file
+has been closed exactly once and no request is processed any more. -/
+theorem all_released_os (acts : List Action) (s : State) (h : run cfgOS State.init acts = some s)
+    (he : s.ended = true) :
+    (∀ act, step cfgOS s act = none) ∧
+    (∀ id, id < s.nobj → (s.objs id).closed = (s.objs id).real.toNat ∧ (s.objs id).ctx = 1) :=
+  (ended_final cfgOS current_good_os acts s h he).2
+
+/-- Request server: the same, and the table is empty. -/
+theorem all_released_rs (acts : List Action) (s : State) (h : run cfgRS State.init acts = some s)
+    (he : s.ended = true) :
+    s.open = [] ∧ (∀ act, step cfgRS s act = none) ∧
+    (∀ id, id < s.nobj → (s.objs id).closed = (s.objs id).real.toNat ∧ (s.objs id).ctx = 1) :=
+  have f := ended_final cfgRS current_good_rs acts s h he
+  ⟨f.1 (by decide), f.2⟩
 
 end Sftp.C11
